@@ -2,7 +2,7 @@
    Tp/TpProofs.v, Tp/TpOracleProofs.v or Tp/TpCalProofs.v and followed by Print Assumptions.
    The model is the transcription of the tree WITH repo_patches/C08-remove-segment-boundaries.diff
    (tp_fixed = true); tp_fixed = false is the pinned tree and is used only by C08_remove_refuted. *)
-From Icv Require Import Base.Tac Tp.TpModel Tp.TpProofs Tp.TpObs Tp.TpOracleProofs Tp.TpCal Tp.TpCivil Tp.TpCalObs Tp.TpCalProofs.
+From Icv Require Import Base.Tac Tp.TpModel Tp.TpProofs Tp.TpObs Tp.TpOracleProofs Tp.TpCal Tp.TpCivil Tp.TpCalObs Tp.TpCalProofs Tp.TpDst Tp.TpTab Tp.TpNth.
 Local Open Scope Z_scope.
 
 (* ---------------- M1: interval algebra, all segment lists, all instants ---------------- *)
@@ -68,15 +68,15 @@ Print Assumptions C08_oracle_accepts_model.
 (* ---------------- M2: calendar ---------------- *)
 
 (* any local time (off, mk arbitrary - also across DST): the produced segments are exactly the mktime
-   images of the time ranges of the days the loop visits and IsInDayDefinition accepts.  PARTIAL: that
-   [mk l1, mk l2) is the wall-clock range on transition days is compared with the code, not proved. *)
-Theorem C08_segments_general_partial : forall mk off ranges b e t,
+   images of the time ranges of the days the loop visits and IsInDayDefinition accepts.  (What that means in
+   wall-clock terms on transition days: C08_ranges / C08_dst / C08_day_loop below.) *)
+Theorem C08_segments_general : forall mk off ranges b e t,
   tp_inside_segs (tp_script_func off mk ranges b e) t =
   existsb (fun d => existsb (fun kv => tp_in_day_def mk (fst kv) d &&
                                        existsb (fun tr => tp_in_time_range_mk mk d tr t) (snd kv)) ranges)
           (tp_loop_days mk (tp_loop_fuel b e) (tp_local_day off b) e).
 Proof. exact tp_script_func_general. Qed.
-Print Assumptions C08_segments_general_partial.
+Print Assumptions C08_segments_general.
 
 (* fixed UTC offset c (no transition in reach): inside the window an instant is in a produced segment iff
    its local day, or one of the three days before, matches a day definition (calendar-day stride) one of
@@ -121,6 +121,145 @@ Theorem C08_calendar_oracle_accepts_model_partial : forall c ranges prefer incs 
   tp_cal_step_ok c [] ranges prefer incs excs b e clear probes pre post (map (tp_is_inside post) probes) = None.
 Proof. exact tp_cal_step_ok_model_const. Qed.
 Print Assumptions C08_calendar_oracle_accepts_model_partial.
+
+(* ---------------- M2 across DST transitions (23 h / 25 h days) ----------------
+   off : UTC offset in force at a UTC instant, with the hypotheses of DESIGN section 2 C08: |off| < 24 h, two
+   instants at which the offset changes are at least 2 days apart.  tp_good off mk L: the local time L exists
+   exactly once and mk returns its instant; tp_needed_list: the local times mktime is asked about for the
+   window (00:00 of the visited days and of the day after, of each day definition's first/last+1 day, both
+   boundaries of every time range on the visited days). *)
+
+(* the key lemma: an exactly-once local time splits the time line exactly like its instant does *)
+Theorem C08_local_time_key : forall off,
+  (forall t, -86400 < off t < 86400) ->
+  (forall s1 s2, s1 < s2 -> off (s1 - 1) <> off s1 -> off (s2 - 1) <> off s2 -> s1 + 172800 <= s2) ->
+  forall L t1, t1 + off t1 = L -> (forall t', t' + off t' = L -> t' = t1) ->
+  forall t, t1 <= t <-> L <= t + off t.
+Proof. exact tp_key. Qed.
+Print Assumptions C08_local_time_key.
+
+(* (2) the day loop of ScriptFunc(begin, end) visits exactly the local calendar days that meet [begin, end] *)
+Theorem C08_day_loop : forall off,
+  (forall t, -86400 < off t < 86400) ->
+  (forall s1 s2, s1 < s2 -> off (s1 - 1) <> off s1 -> off (s2 - 1) <> off s2 -> s1 + 172800 <= s2) ->
+  forall mk b e r, b <= e ->
+  tp_good off mk (tp_local_day off b * 86400) ->
+  (forall d, tp_local_day off b <= d <= tp_local_day off e + 1 -> tp_good off mk (d * 86400)) ->
+  (In r (tp_loop_days mk (tp_loop_fuel b e) (tp_local_day off b) e) <->
+   exists t, b <= t <= e /\ tp_local_day off t = r).
+Proof. exact tp_day_loop_days. Qed.
+Print Assumptions C08_day_loop.
+
+(* (1) C08_ranges for any such local time: for every instant t of the window (to the second, all instants of
+   transition days included) t lies in a produced segment iff its local calendar day, or one of the three
+   before (ranges running past midnight), matches a day definition one of whose time ranges contains its
+   wall-clock time.  Visible hypotheses: the boundaries exist exactly once (the property's restriction), and
+   the negated signatures of F-C08-c (stride counted in seconds = calendar stride) and F-C08-b (no range of a
+   day before the window's first local day reaches t). *)
+Theorem C08_ranges : forall off,
+  (forall t, -86400 < off t < 86400) ->
+  (forall s1 s2, s1 < s2 -> off (s1 - 1) <> off s1 -> off (s2 - 1) <> off s2 -> s1 + 172800 <= s2) ->
+  forall mk ranges b e t,
+  b <= t <= e -> tp_ranges_bounded ranges ->
+  (forall L, In L (tp_needed_list off ranges b e) -> tp_good off mk L) ->
+  (forall d kv, tp_local_day off b <= d <= tp_local_day off e -> In kv ranges ->
+                tp_day_matches_secs mk (fst kv) d = tp_day_matches (fst kv) d) ->
+  (forall d, d < tp_local_day off b -> tp_day_covers off mk false ranges d t = false) ->
+  tp_inside_segs (tp_script_func off mk ranges b e) t = tp_spec_inside off mk false None tp_back ranges t.
+Proof. exact tp_ranges_dst. Qed.
+Print Assumptions C08_ranges.
+
+(* ... the same with mktime DEFINED as the unique instant (searched in (L - 24 h, L + 24 h)) *)
+Theorem C08_dst : forall off ranges b e t,
+  (forall t, -86400 < off t < 86400) ->
+  (forall s1 s2, s1 < s2 -> off (s1 - 1) <> off s1 -> off (s2 - 1) <> off s2 -> s1 + 172800 <= s2) ->
+  b <= t <= e -> tp_ranges_bounded ranges ->
+  (forall L, In L (tp_needed_list off ranges b e) -> tp_once off L) ->
+  (forall d kv, tp_local_day off b <= d <= tp_local_day off e -> In kv ranges ->
+                tp_day_matches_secs (tp_mk_def off) (fst kv) d = tp_day_matches (fst kv) d) ->
+  (forall d, d < tp_local_day off b -> tp_day_covers off (tp_mk_def off) false ranges d t = false) ->
+  tp_inside_segs (tp_script_func off (tp_mk_def off) ranges b e) t =
+  tp_spec_inside off (tp_mk_def off) false None tp_back ranges t.
+Proof. exact tp_ranges_dst_mk_def. Qed.
+Print Assumptions C08_dst.
+
+(* ... without the two finding hypotheses: the statement with the stride in seconds and days from the window's
+   first local day on - exactly what the two recorded findings leave *)
+Theorem C08_ranges_as_implemented : forall off,
+  (forall t, -86400 < off t < 86400) ->
+  (forall s1 s2, s1 < s2 -> off (s1 - 1) <> off s1 -> off (s2 - 1) <> off s2 -> s1 + 172800 <= s2) ->
+  forall mk ranges b e t,
+  b <= t <= e -> tp_ranges_bounded ranges ->
+  (forall L, In L (tp_needed_list off ranges b e) -> tp_good off mk L) ->
+  tp_inside_segs (tp_script_func off mk ranges b e) t =
+  tp_spec_inside off mk true (Some (tp_local_day off b)) tp_back ranges t.
+Proof. exact tp_script_func_dst. Qed.
+Print Assumptions C08_ranges_as_implemented.
+
+(* the executable tables: every premise about local time is a boolean the oracle COMPUTES per case
+   (tp_cal_hyps_ok = table ascending, transitions >= 2 days apart, |offset| < 24 h, and every needed local
+   time exists exactly once with tp_tab_mk returning its instant) *)
+Theorem C08_ranges_table : forall base tab ranges b e t,
+  tp_cal_hyps_ok base tab ranges b e = true ->
+  b <= t <= e -> tp_ranges_bounded ranges ->
+  (forall d kv, tp_local_day (tp_tab_off base tab) b <= d <= tp_local_day (tp_tab_off base tab) e -> In kv ranges ->
+                tp_day_matches_secs (tp_tab_mk base tab) (fst kv) d = tp_day_matches (fst kv) d) ->
+  (forall d, d < tp_local_day (tp_tab_off base tab) b ->
+             tp_day_covers (tp_tab_off base tab) (tp_tab_mk base tab) false ranges d t = false) ->
+  tp_inside_segs (tp_script_func (tp_tab_off base tab) (tp_tab_mk base tab) ranges b e) t =
+  tp_spec_inside (tp_tab_off base tab) (tp_tab_mk base tab) false None tp_back ranges t.
+Proof. exact tp_ranges_table. Qed.
+Print Assumptions C08_ranges_table.
+
+Theorem C08_table_hypotheses : forall base tab,
+  tp_tab_ok base tab = true ->
+  (forall t, -86400 < tp_tab_off base tab t < 86400) /\
+  (forall s1 s2, s1 < s2 ->
+     tp_tab_off base tab (s1 - 1) <> tp_tab_off base tab s1 ->
+     tp_tab_off base tab (s2 - 1) <> tp_tab_off base tab s2 -> s1 + 172800 <= s2).
+Proof. exact tp_tab_hyps. Qed.
+Print Assumptions C08_table_hypotheses.
+
+(* (3) strides: the seconds/86400 day number is the calendar day distance when the offset is the same at the
+   two midnights (no transition between the range's first day and the day), or trivially for stride <= 1 *)
+Theorem C08_stride_no_transition : forall off,
+  (forall t, -86400 < off t < 86400) ->
+  (forall s1 s2, s1 < s2 -> off (s1 - 1) <> off s1 -> off (s2 - 1) <> off s2 -> s1 + 172800 <= s2) ->
+  forall mk dd r,
+  tp_good off mk (r * 86400) -> tp_good off mk (tp_range_begin_day dd r * 86400) ->
+  off (tp_midnight mk r) = off (tp_midnight mk (tp_range_begin_day dd r)) ->
+  tp_day_matches_secs mk dd r = tp_day_matches dd r.
+Proof. exact tp_stride_same_offset. Qed.
+Print Assumptions C08_stride_no_transition.
+
+(* (3) n-th weekday: the closed form used by the model has the weekday and lies in the n-th block of seven
+   days from the first (n > 0) / from the last (n < 0) day of the month ... *)
+Theorem C08_nth_weekday : forall wd n y m0,
+  0 <= wd <= 6 -> n <> 0 ->
+  let r := tp_find_nth_weekday wd n y m0 in
+  let first := tp_days_from_civil y (m0 + 1) 1 in
+  let last := tp_days_from_civil y (m0 + 2) 1 - 1 in
+  tp_wday r = wd /\
+  (0 < n -> first + 7 * (n - 1) <= r < first + 7 * n) /\
+  (n < 0 -> last - 7 * (- n) < r <= last - 7 * (- n - 1)).
+Proof. exact tp_find_nth_weekday_spec. Qed.
+Print Assumptions C08_nth_weekday.
+
+(* ... and is what the day-by-day loop of FindNthWeekday returns (on days whose midnight exists) *)
+Theorem C08_nth_weekday_loop : forall wd n y m0 fuel,
+  0 <= wd <= 6 -> (0 < n /\ 7 * n <= Z.of_nat fuel \/ n < 0 /\ 7 * (- n) <= Z.of_nat fuel) ->
+  tp_find_nth_weekday_loop fuel wd n y m0 = Some (tp_find_nth_weekday wd n y m0).
+Proof.
+  intros wd n y m0 fuel Hwd [[H1 H2]|[H1 H2]];
+    [exact (tp_find_nth_weekday_loop_forward wd n y m0 fuel Hwd H1 H2)
+    |exact (tp_find_nth_weekday_loop_backward wd n y m0 fuel Hwd H1 H2)].
+Qed.
+Print Assumptions C08_nth_weekday_loop.
+
+(* known finding nth-weekday-zero-hang: for n = 0 ("monday 0") the loop returns nothing for ANY fuel *)
+Theorem C08_nth_zero_refuted : forall fuel wd y m0, tp_find_nth_weekday_loop fuel wd 0 y m0 = None.
+Proof. exact tp_find_nth_weekday_zero_diverges. Qed.
+Print Assumptions C08_nth_zero_refuted.
 
 (* F-C08-b (known): "friday" = "22:00-06:00", window computed afresh from Saturday 03:00 (Europe/Berlin):
    Saturday 03:00 is inside by the statement, not by the produced segments *)
@@ -195,3 +334,15 @@ Proof.
   change (tp_days_from_civil 2033 6 6) with 23167.
   change (61200 <=? 32400) with false. cbv iota. lia.
 Qed.
+
+(* ... and the computed hypotheses of C08_ranges_table hold for the Europe/Berlin table on a window across the
+   spring-forward day 2034-03-26 with a range whose boundaries avoid the skipped hour; 02:30 does not pass *)
+Example C08_nonvacuous_dst :
+  let mk := tp_tab_mk tp_berlin_base tp_berlin_tab in
+  let b := mk (tp_days_from_civil 2034 3 25 * 86400 + 43200) in
+  let rg tb te := [({| tp_dr_first := TpWeekday 0 None None; tp_dr_last := None; tp_dr_stride := 1 |}, [(tb, te)])] in
+  tp_cal_hyps_ok tp_berlin_base tp_berlin_tab (rg 1800 14400) b (b + 172800) = true /\
+  tp_cal_hyps_ok tp_berlin_base tp_berlin_tab (rg 9000 14400) b (b + 172800) = false /\
+  tp_inside_segs (tp_script_func (tp_tab_off tp_berlin_base tp_berlin_tab) mk (rg 1800 14400) b (b + 172800))
+                 (mk (tp_days_from_civil 2034 3 26 * 86400 + 12600)) = true.
+Proof. vm_compute. repeat split; reflexivity. Qed.
